@@ -727,6 +727,7 @@ func (s *Sim) Progress() int64 {
 type Flags struct {
 	Exists, HostDisc, TNCDisc, Closed       bool
 	RxFrames, LastPollReply, DSinceLastPoll int
+	TxBytes                                 int // payload bytes sent to the application so far
 }
 
 func (s *Sim) ConnFlags(remote string) Flags {
@@ -737,7 +738,7 @@ func (s *Sim) ConnFlags(remote string) Flags {
 		return Flags{}
 	}
 	return Flags{Exists: true, HostDisc: c.HostDisc, TNCDisc: c.TNCDisc, Closed: c.HostDisc || c.TNCDisc, RxFrames: c.RxFrames,
-		LastPollReply: c.LastPollReply, DSinceLastPoll: c.DSinceLastPoll}
+		LastPollReply: c.LastPollReply, DSinceLastPoll: c.DSinceLastPoll, TxBytes: c.Tx.Len()}
 }
 
 // InboundWithData announces an incoming connection and sends data frames of that connection
